@@ -8,7 +8,7 @@ import sys, os, json, struct
 sys.dont_write_bytecode = True
 sys.path.insert(0, sys.argv[1]); sys.path.insert(0, sys.argv[2])
 import a5                                  # imported, never called
-from harness import calls
+from harness import calls, sched
 inp, out = sys.stdin.buffer, sys.stdout.buffer
 while True:
     hdr = inp.read(4)
@@ -23,8 +23,11 @@ while True:
         if pid == 0:
             os.close(r)
             try:
-                x = calls.execute(desc)
-                msg = json.dumps({"bits": x["bits"], "preview": x["preview"]})
+                if isinstance(desc, dict) and "fn" in desc:
+                    msg = json.dumps(getattr(sched, desc["fn"])(*desc["args"]))
+                else:
+                    x = calls.execute(desc)
+                    msg = json.dumps({"bits": x["bits"], "preview": x["preview"]})
             except BaseException as ex:
                 msg = json.dumps({"bits": "forkfail:" + type(ex).__name__, "preview": str(ex)[:80]})
             os.write(w, msg.encode())
